@@ -223,6 +223,9 @@ def _try(F, N, D, nname, dname, is_method, extra, nparams, Equiv, _canon_params)
         cand = _Sub(sub).visit(cand)
     ast.fix_missing_locations(cand)
     try:
+        from .align import reorder_keywords
+
+        reorder_keywords(cand, D)  # keyword order only affects the evaluation order of the argument expressions
         if not Equiv(_canon_params(cand), _canon_params(D)).function():
             return False
     except RecursionError:
